@@ -1,5 +1,151 @@
-import FGVerif.Driver.Shared
-/-! driver operations for C18 (stub: replaced by the property's own driver) -/
+import FGVerif.Wire
+import FGVerif.Model.C18
+/-! driver operations for C18 -/
 namespace C18
-def handle : List SExp → Option SExp := fun _ => none
+open SExp
+
+def asBond : SExp → Option Bond := asOpt asInt
+
+def asEdge : SExp → Option Edge
+  | .list [u, v, g, h] => do pure { u := ← asInt u, v := ← asInt v, g := ← asBond g, h := ← asBond h }
+  | _ => none
+
+/-- `(((id sym) …) ((u v g h) …))` -/
+def asITS : SExp → Option ITS
+  | .list [ns, es] => do
+      pure { nodes := ← asList (asPair asInt asStr) ns, edges := ← asList asEdge es }
+  | _ => none
+
+/-- `((row …) ((u v) …) (row …))` -/
+def asTData : SExp → Option TData
+  | .list [x, ei, ea] => do
+      pure { x := ← asList (asList asInt) x, ei := ← asList (asPair asNat asNat) ei,
+             ea := ← asList (asList asInt) ea }
+  | _ => none
+
+def asNxG : SExp → Option NxG
+  | .list [ns, es] => do
+      let nodes ← asList (asPair asInt (asOpt asStr)) ns
+      let edges ← asList (fun e => match e with
+        | .list [a, b, attr] => do pure ((← asInt a), (← asInt b), (← asList asInt attr))
+        | _ => none) es
+      pure { nodes := nodes, edges := edges }
+  | _ => none
+
+def ofTData (t : TData) : SExp :=
+  .list [ofList (ofList ofInt) t.x,
+         ofList (fun (p : Nat × Nat) => .list [ofNat p.1, ofNat p.2]) t.ei,
+         ofList (ofList ofInt) t.ea]
+
+/-- graphs travel with canonical (sorted, smaller end first) edges -/
+def ofNxG (G : NxG) : SExp :=
+  .list [ofList (fun (n : Int × Option String) => .list [ofInt n.1, ofOpt ofStr n.2]) G.nodes,
+         ofList (fun (e : Int × Int × List Int) => .list [ofInt e.1, ofInt e.2.1, ofList ofInt e.2.2])
+           (canonEdges G.edges)]
+
+def raised (k : String) : SExp := .list [.atom "raised", .atom k]
+
+def isRaised : SExp → Bool
+  | .list [.atom "raised", _] => true
+  | _ => false
+
+def reply (model : SExp) (specModel : Bool) (specImpl : SExp) : Option SExp :=
+  some (.list [.atom "ok", model, ofBool specModel, specImpl])
+
+/-- spec on an optional implementation output: `_` when absent, `0` when it raised or does not decode -/
+def onImpl (rest : List SExp) (f : SExp → Option Bool) : SExp :=
+  match rest with
+  | [impl] => if isRaised impl then ofBool false else
+      match f impl with
+      | some b => ofBool b
+      | none => ofBool false
+  | _ => none'
+
+def zipAll {α β} (f : α → β → Bool) : List α → List β → Bool
+  | [], [] => true
+  | a :: as, b :: bs => f a b && zipAll f as bs
+  | _, _ => false
+
+def rtSpec (tf : Nat) (I : ITS) (t : TData) (G : NxG) : Bool :=
+  xCheck tf I t && rtCheck (efOf tf) I G
+
+def handle : List SExp → Option SExp
+  | [.atom "reftable"] => reply (ofList ofStr refSymbols) true none'
+  | .atom "roundtrip" :: tf :: i :: rest => do
+      let tf ← asNat tf
+      let I ← asITS i
+      if !I.elementSymbols then reply (raised "KeyError") true (onImpl rest fun _ => some false) else
+      if !I.hasEdge then reply (raised "Assertion") true (onImpl rest fun _ => some false) else
+      let t := toTorchWith (nfOf tf sym2num) (efOf tf) I
+      match fromTorchWith (nftOf tf) t with
+      | none => reply (raised "Assertion") false (onImpl rest fun _ => some false)
+      | some G =>
+        let specImpl := onImpl rest fun impl => match impl with
+          | .list [ti, gi] => do pure (rtSpec tf I (← asTData ti) (← asNxG gi))
+          | _ => none
+        reply (.list [ofTData t, ofNxG G]) (rtSpec tf I t G) specImpl
+  | .atom "batch" :: tf :: is :: rest => do
+      let tf ← asNat tf
+      let Is ← asList asITS is
+      if !(Is.all fun I => I.elementSymbols) then reply (raised "KeyError") true (onImpl rest fun _ => some false) else
+      if !(Is.all fun I => I.hasEdge) then reply (raised "Assertion") true (onImpl rest fun _ => some false) else
+      let ts := Is.map (toTorchWith (nfOf tf sym2num) (efOf tf))
+      let b := toTorchList (nfOf tf sym2num) (efOf tf) Is
+      let spec := fun (tb : TData) (bv : List Nat) (ts : List TData) (Gs : List NxG) =>
+        decide ((tb, bv) = batchOf ts) && zipAll (xCheck tf) Is ts && zipAll (rtCheck (efOf tf)) Is Gs
+      match fromTorchBatchWith (nftOf tf) b.1 b.2 with
+      | none => reply (raised "Assertion") false (onImpl rest fun _ => some false)
+      | some Gs =>
+        let specImpl := onImpl rest fun impl => match impl with
+          | .list [tb, bv, tsi, gsi] => do
+              pure (spec (← asTData tb) (← asList asNat bv) (← asList asTData tsi) (← asList asNxG gsi))
+          | _ => none
+        reply (.list [ofTData b.1, ofList ofNat b.2, ofList ofTData ts, ofList ofNxG Gs])
+          (spec b.1 b.2 ts Gs) specImpl
+  | .atom "frombatch" :: tf :: t :: bv :: rest => do
+      let tf ← asNat tf
+      let t ← asTData t
+      let bv ← asList asNat bv
+      match fromTorchBatchWith (nftOf tf) t bv with
+      | none => reply (raised "Assertion") true (onImpl rest fun _ => some false)
+      | some Gs =>
+        let m := ofList ofNxG Gs
+        reply m true (onImpl rest fun impl => some (impl == m))
+  | .atom "nodeind" :: tf :: i :: s :: rest => do
+      let tf ← asNat tf
+      let I ← asITS i
+      let S ← asList asInt s
+      let m := nodeInduced (toTorchWith (nfOf tf sym2num) (efOf tf) I) (S.map I.pos)
+      let want := toTorchWith (nfOf tf refSym2num) (efOf tf) (nodeSub I S)
+      reply (ofTData m) (decide (m = want)) (onImpl rest fun impl => do pure (decide ((← asTData impl) = want)))
+  | .atom "edgeind" :: tf :: i :: e :: rest => do
+      let tf ← asNat tf
+      let I ← asITS i
+      let E ← asList asNat e
+      let m := edgeInduced (toTorchWith (nfOf tf sym2num) (efOf tf) I) (edgeCols E)
+      let want := toTorchWith (nfOf tf refSym2num) (efOf tf) (edgeSub I E)
+      reply (ofTData m) (decide (m = want)) (onImpl rest fun impl => do pure (decide ((← asTData impl) = want)))
+  | .atom "nodeind_t" :: t :: ns :: rest => do
+      let t ← asTData t
+      let ns ← asList asNat ns
+      let m := nodeInduced t ns
+      reply (ofTData m) true (onImpl rest fun impl => do pure (decide ((← asTData impl) = m)))
+  | .atom "edgeind_t" :: t :: es :: rest => do
+      let t ← asTData t
+      let es ← asList asNat es
+      let m := edgeInduced t es
+      reply (ofTData m) true (onImpl rest fun impl => do pure (decide ((← asTData impl) = m)))
+  | .atom "prune" :: t :: ss :: r :: rest => do
+      let t ← asTData t
+      let ss ← asList asNat ss
+      let r ← asNat r
+      let m := prune t ss r
+      reply (ofTData m) (pruneCheck t ss r m) (onImpl rest fun impl => do pure (pruneCheck t ss r (← asTData impl)))
+  | .atom "prunerc" :: t :: r :: rest => do
+      let t ← asTData t
+      let r ← asNat r
+      let m := pruneRc t r
+      reply (ofTData m) (pruneRcCheck t r m) (onImpl rest fun impl => do pure (pruneRcCheck t r (← asTData impl)))
+  | _ => none
+
 end C18
